@@ -57,6 +57,13 @@ def handle (args : List String) : String :=
       let some t := pairsOfFlat t | return "bad-op"
       if n = 0 || t.length ≠ n || !inRange t then return "bad-op"
       return matStr (2 * n) (fromIntTuple t)
+  | ["randsp", n, t] => Id.run do
+      -- `rand_SpF2(n)` on the scripted raw draws `t` (each below its base, as `randint(0, base-1)` guarantees)
+      let some n := n.toNat? | return "bad-op"
+      let some t := parseNatList? t | return "bad-op"
+      let some t := pairsOfFlat t | return "bad-op"
+      if n = 0 || t.length ≠ n || !inRange t then return "bad-op"
+      return matStr (2 * n) (randSpF2 t)
   | ["to", n, M] => Id.run do
       let some n := n.toNat? | return "bad-op"
       if n = 0 then return "bad-op"
